@@ -220,4 +220,12 @@ def rule_lists(ctx):
     ctx.add("LIST", "Comparison:order", ok, ctx.site(cb), "a comparison is printed lhs relation rhs")
 
 
-RULES = [rule_tokens, rule_precedence, rule_lists]
+def rule_dispatch(ctx):
+    from .. import prec
+    A = "syntax_tree::asp::mini_gringo::"
+    n = prec.rule_dispatch(ctx, "asp", "Term", [("UnaryOperation", "op", A + "UnaryOperator", ("arg",), "fmt_unary"),
+                                                ("BinaryOperation", "op", A + "BinaryOperator", ("lhs", "rhs"), "fmt_binary")], group="PRN-P")
+    ctx.floor("PRN-P", "dispatch_cases", n, 5)
+
+
+RULES = [rule_tokens, rule_precedence, rule_dispatch, rule_lists]
